@@ -211,6 +211,12 @@ def build_policy(sc, seed, year, full, gate, setup, benign):
         for k, v in (gate.get('requires') or {}).items():
             fixed[k] = v
         fixed[full] = gate['value']
+        # a gate on copy k of a payer form: k + 2 copies (at most 3) so that the declaring copy is NOT the last one
+        # whenever possible, and the other copies answer the gate negatively / with nothing to declare
+        inst = instance_of(full)
+        if inst is not None and inst.isdigit():
+            form = full.split(':')[0]
+            fixed.setdefault(f'1040.number_{form}', str(min(3, int(inst) + 2)))
         if gate['input'].startswith('nc_d-400') and 'nc_d-400' not in forms:
             forms.append('nc_d-400')
     pol = sc.Policy(seed, year, fixed=fixed, p_yes=0.0 if benign else 0.01, max_count=2 if benign else 3,
